@@ -6,7 +6,7 @@
 (* computes in the state reached so far.  TLC is the judge; the harness    *)
 (* that recorded the trace contains no oracle.                             *)
 (***************************************************************************)
-EXTENDS FileSem, Abi, Json, IOUtils
+EXTENDS FileSem, Abi, Features, Json, IOUtils
 
 Rec == ndJsonDeserialize(IOEnv.TRACE)
 
@@ -17,10 +17,11 @@ VARIABLES l,        \* next trace line
           tbl,      \* the lazily parsed table under test: [ty, class, little, buf] or <<>>
           ht,       \* names of the symbol table the current hash table was built for (set by hash_wf)
           fh,       \* the open slice-parser handle: [f |-> file, eb |-> handle] or <<>> (closed / open failed)
+          sth,      \* the open stream-parser handle: [f, eb, openl, hadfault] or <<>>
           sv,       \* the symbol version table under test: [class, little, versym, need, def, model] or <<>>
           nbad      \* number of events the specification does not allow
 
-vars == <<l, slots, tbl, ht, fh, sv, nbad>>
+vars == <<l, slots, tbl, ht, fh, sth, sv, nbad>>
 
 Has(e, k) == k \in DOMAIN e
 IsLittle(es) == CASE es \in {"LE", "AnyL"} -> TRUE
@@ -207,6 +208,22 @@ PrefixRel(e) ==
             /\ QOut(ff, o, e, FALSE) = po
             /\ po = "ok" => QDet(ff, o, e, FALSE) = QDet(fh.f, fh.eb, e, FALSE))
 
+\* ---- ElfStream sessions (C07 C08 C17) ---------------------------------------------------------
+\* StreamAbs: what the properties demand of one stream call, given the file, the faults the reader
+\* injected during the call (e.faulted) and before it (sth.hadfault)
+AllocBound(e, f) == e.maxalloc <= 8 * f.len + 16384
+OkSOpen(e) ==
+    LET f == FileOf(e.fileslot)
+    IN IF e.faulted THEN Out(e) = "err"                                   \* C17: the failure surfaces
+       ELSE OpenOk(f, e, TRUE)                                            \* C07: same outcome and headers as the slice parser
+LazySOpen(e) == ReadsWithin(e.io, OpenRanges(FileOf(e.fileslot), e.es))
+OkSQ(e) ==
+    IF sth = <<>> THEN Out(e) = "closed"
+    ELSE IF e.faulted THEN Out(e) = "err"
+    ELSE IF sth.hadfault THEN (Out(e) = "err" \/ QueryOk(sth.f, sth.eb, e, TRUE))   \* C17: no residue
+    ELSE QueryOk(sth.f, sth.eb, e, TRUE) /\ RelC07(sth.f, sth.eb, e)
+LazySQ(e) == sth # <<>> => ReadsWithin(e.io, QRanges(sth.f, sth.eb, e, TRUE))
+
 ---------------------------------------------------------------------------
 \* does the specification allow event e in the current state?
 Allowed(e) ==
@@ -216,6 +233,10 @@ Allowed(e) ==
       [] e.op \in {"sysv_find", "gnu_find"} -> OkFind(e)
       [] e.op \in {"verdef_iter", "verneed_iter", "verdaux_iter", "vernaux_iter"} -> OkVerIter(e)
       [] e.op \in {"symver_req", "symver_def"} -> OkSymver(e)
+      [] e.op = "feature" -> FeatureOk(e)
+      [] e.op = "feature_core" -> FeatureCoreOk(e)
+      [] e.op = "sopen" -> OkSOpen(e)
+      [] e.op = "sq" -> OkSQ(e)
       [] e.op = "open" -> OkOpen(e)
       [] e.op = "q" -> OkQ(e) /\ (Out(e) # "closed" => PrefixRel(e))
       [] e.op = "read_int" -> OkReadInt(e)
@@ -230,11 +251,18 @@ Allowed(e) ==
 
 \* C01 / C06 riders on every event that has a result: no panic, no allocation (slice parser)
 NoPanic(e) == Has(e, "res") => Out(e) # "panic"
-NoAlloc(e) == Has(e, "allocs") => e.allocs = 0
+NoAlloc(e) == (Has(e, "allocs") /\ e.op \notin {"sopen", "sq"}) => e.allocs = 0
+\* C08 riders on stream calls: bounded allocation, lazy reads
+StreamBound(e) == CASE e.op = "sopen" -> AllocBound(e, FileOf(e.fileslot))
+                    [] e.op = "sq" -> (sth # <<>> => AllocBound(e, sth.f))
+                    [] OTHER -> TRUE
+StreamLazy(e) == CASE e.op = "sopen" -> LazySOpen(e) [] e.op = "sq" -> LazySQ(e) [] OTHER -> TRUE
 
 GenOk(e) == IF e.op = "hash_wf" THEN GenOkFind(e) ELSE TRUE
 
-Init == l = 1 /\ slots = [x \in {} |-> 0] /\ tbl = <<>> /\ ht = <<>> /\ fh = <<>> /\ sv = <<>> /\ nbad = 0
+Tag(e) == IF e.op \in {"q", "sq"} THEN e.op \o ":" \o e.name ELSE e.op
+
+Init == l = 1 /\ slots = [x \in {} |-> 0] /\ tbl = <<>> /\ ht = <<>> /\ fh = <<>> /\ sth = <<>> /\ sv = <<>> /\ nbad = 0
 
 Step ==
     /\ l <= Len(Rec)
@@ -243,10 +271,12 @@ Step ==
            vbad == IF pbad THEN TRUE ELSE ~Allowed(e)
            abad == ~NoAlloc(e)
        IN /\ nbad' = IF vbad \/ pbad \/ abad THEN nbad + 1 ELSE nbad
-          /\ IF vbad THEN PrintT(<<"MISMATCH", l, "value", e.op>>) ELSE TRUE
-          /\ IF pbad THEN PrintT(<<"MISMATCH", l, "panic", e.op>>) ELSE TRUE
-          /\ IF abad THEN PrintT(<<"MISMATCH", l, "alloc", e.op>>) ELSE TRUE
-          /\ IF ~GenOk(e) THEN PrintT(<<"MISMATCH", l, "gen", e.op>>) ELSE TRUE
+          /\ IF vbad THEN PrintT(<<"MISMATCH", l, "value", Tag(e)>>) ELSE TRUE
+          /\ IF pbad THEN PrintT(<<"MISMATCH", l, "panic", Tag(e)>>) ELSE TRUE
+          /\ IF abad THEN PrintT(<<"MISMATCH", l, "alloc", Tag(e)>>) ELSE TRUE
+          /\ IF ~pbad /\ ~StreamBound(e) THEN PrintT(<<"MISMATCH", l, "bound", Tag(e)>>) ELSE TRUE
+          /\ IF ~pbad /\ ~StreamLazy(e) THEN PrintT(<<"MISMATCH", l, "lazy", Tag(e)>>) ELSE TRUE
+          /\ IF ~GenOk(e) THEN PrintT(<<"MISMATCH", l, "gen", Tag(e)>>) ELSE TRUE
           /\ slots' = CASE e.op = "session" -> [x \in {} |-> 0]
                         [] e.op = "buf" -> [x \in (DOMAIN slots) \cup {e.slot} |->
                                                IF x = e.slot THEN l ELSE slots[x]]
@@ -264,6 +294,11 @@ Step ==
                      [] e.op = "open" -> (LET f == FileOf(e.fileslot) o == Open(f, e.es)
                                          IN IF o.ok THEN [f |-> f, eb |-> o, openl |-> l] ELSE <<>>)
                      [] OTHER -> fh
+          /\ sth' = CASE e.op = "session" -> <<>>
+                     [] e.op = "sopen" -> (LET f == FileOf(e.fileslot) o == Open(f, e.es)
+                                          IN IF o.ok /\ Out(e) = "ok" THEN [f |-> f, eb |-> o, openl |-> l, hadfault |-> FALSE] ELSE <<>>)
+                     [] e.op = "sq" -> IF sth # <<>> /\ e.faulted THEN [sth EXCEPT !.hadfault = TRUE] ELSE sth
+                     [] OTHER -> sth
           /\ sv' = CASE e.op = "session" -> <<>>
                      [] e.op = "symver_new" -> SvOf(e)
                      [] OTHER -> sv
